@@ -1,5 +1,5 @@
 """C08 - backpressure: the per-step comparison and the goroutine identity of every callback (DESIGN 6/C08): Ops.tla is the definition; TLC enumerates, the real code is replayed."""
-import vlib, parts_pipeline as pp, parts_detach, common
+import vlib, parts_multi, parts_pipeline as pp, parts_detach, common
 
 PID = 'C08'
 
@@ -8,6 +8,10 @@ def main(argv):
     rep = vlib.Report(PID, 'model_checking', argv)
     vlib.build_harness()
     pp.run(rep, PID, common.pipeline_cfgs(rep, 'values'))
+    # multi-source and higher-order operators deliver synchronously too: after each arrival returned the observer holds exactly the outputs of that arrival
+    # (class late), on the caller's goroutine (class gid), and an inner source is subscribed when the outer notification returns (class sub)
+    parts_multi.run(rep, PID, rep.tier == 'thorough')
+    parts_multi.run_ho(rep, PID, rep.tier == 'thorough')
     # hand-off operators: the only places where values wait in a queue
     parts_detach.model_part(rep)
     parts_detach.trace_part(rep, PID, 600 if rep.tier == 'thorough' else 300, [rep.seed * 100 + i for i in range(6 if rep.tier == 'thorough' else 1)])
@@ -22,4 +26,7 @@ def replay(path):
     vlib.build_harness()
     if path.endswith('.ndjson'):
         return parts_detach.replay_trace(PID, path)
+    import json
+    if json.load(open(path))['replay'].get('module') in ('MultiGen', 'HOGen', 'MultiOddGen'):
+        return parts_multi.replay_case(PID, path)
     return pp.replay_case(PID, path)
